@@ -59,6 +59,7 @@ func (r *Report) add(rule, construct string, pos token.Pos, verdict string, nont
 	if _, ok := r.Rules[rule]; !ok {
 		panic("rule not declared: " + rule)
 	}
+	construct = strings.ReplaceAll(construct, " ", "_")
 	r.Obs = append(r.Obs, Ob{Rule: rule, Construct: construct, Pos: r.W.Pos(pos), Verdict: verdict,
 		Msg: fmt.Sprintf(format, a...), Nontrivial: nontrivial})
 }
@@ -161,7 +162,11 @@ type evidence struct {
 
 // Finish matches known findings, writes the evidence file and returns the exit status.
 func (r *Report) Finish(verifDir string, seed int, explanation string, assumptions []string) int {
-	known, _ := loadKnown(filepath.Join(verifDir, "known_findings.txt"))
+	kp := knownPath
+	if kp == "" {
+		kp = filepath.Join(verifDir, "known_findings.txt")
+	}
+	known, _ := loadKnown(kp)
 
 	// instance counts
 	counts := map[string]int{}
